@@ -44,7 +44,6 @@ type c03Con struct {
 	proto  string // a:<atom> | t:<kind> | b:<op>:<atom> | r:<name>
 	src    string
 	kindCl string // rough kind class for the non-triviality rule: num | str | bytes | bool | null | any
-	bigFr  bool   // bound whose operand has a fraction and an integer part needing > 34 digits
 }
 
 func c03Int(z *big.Int) c03Atom {
@@ -110,22 +109,6 @@ func (a c03Atom) kindCl() string {
 	return "bool"
 }
 
-// bigFrac reports whether the number has a non-zero fraction and an integer part whose
-// magnitude + 1 needs more than 34 digits (the region where BaseContext.Ceil/Floor round).
-func (a c03Atom) bigFrac() bool {
-	if !a.isNum || a.exp >= 0 {
-		return false
-	}
-	p := new(big.Int).Exp(bi(10), bi(int64(-a.exp)), nil)
-	q, r := new(big.Int).QuoRem(new(big.Int).Abs(a.coeff), p, new(big.Int))
-	if r.Sign() == 0 {
-		return false
-	}
-	q.Add(q, bi(1))
-	lim := new(big.Int).Exp(bi(10), bi(34), nil)
-	return q.Cmp(lim) >= 0
-}
-
 func conAtom(a c03Atom) c03Con {
 	return c03Con{proto: "a:" + a.proto, src: a.src, kindCl: a.kindCl()}
 }
@@ -150,7 +133,7 @@ func conBound(op string, a c03Atom) c03Con {
 	if a.proto == "n" && op == "ne" {
 		k = "any"
 	}
-	return c03Con{proto: "b:" + op + ":" + a.proto, src: src, kindCl: k, bigFr: a.bigFrac()}
+	return c03Con{proto: "b:" + op + ":" + a.proto, src: src, kindCl: k}
 }
 
 func conRange(name string) c03Con {
@@ -264,7 +247,7 @@ type c03Impl struct {
 }
 
 func (h *c03Impl) context() *cue.Context {
-	if h.ctx == nil || h.used > 4000 {
+	if h.ctx == nil || h.used > 300 {
 		h.ctx = cuecontext.New()
 		h.used = 0
 	}
@@ -457,15 +440,6 @@ type c03Result struct {
 	counts []string
 }
 
-func c03BigFr(cs []c03Con) bool {
-	for _, c := range cs {
-		if c.bigFr {
-			return true
-		}
-	}
-	return false
-}
-
 func c03Nontrivial(cs []c03Con) bool {
 	// at least two constraints of overlapping kind
 	n := map[string]int{}
@@ -483,8 +457,6 @@ func c03Nontrivial(cs []c03Con) bool {
 	return n["any"] >= 2
 }
 
-const c03Tag = "int-bound-fraction-over-34-digits"
-
 // oneList produces every observable for one constraint list and one atom set.
 func c03OneList(h *c03Impl, cs []c03Con, atoms []c03Atom, withResid bool, focus bool) c03Result {
 	var res c03Result
@@ -492,11 +464,7 @@ func c03OneList(h *c03Impl, cs []c03Con, atoms []c03Atom, withResid bool, focus 
 	proto := c03Proto(cs)
 	res.canon = proto
 	res.nontr = c03Nontrivial(cs)
-	big := c03BigFr(cs)
 	tag := ""
-	if big {
-		tag = c03Tag
-	}
 	cl, det := h.eval(src)
 	// property-level observable: which atom (if any) the conjunction evaluates to
 	ans := "nonatom"
@@ -542,19 +510,13 @@ func c03OneList(h *c03Impl, cs []c03Con, atoms []c03Atom, withResid bool, focus 
 	if len(atoms) > 0 {
 		al := strings.Join(protos, ";")
 		// against the proved model
-		// (in the known defect region the model's verdict depends on the insertion order, so the
-		// comparison is class-tagged there as well)
 		res.ops = append(res.ops, c03Out{"O", tag, "acceptv " + proto + " " + al, av.String()})
-		// against the specification itself (class-tagged in the known defect region)
+		// against the specification itself
 		res.ops = append(res.ops, c03Out{"O", tag, "satv " + proto + " " + al, sv.String()})
 	}
 	// a bottom conjunction must not accept any atom
 	if cl == "bottom" {
-		dcl := "bottom-but-accepts"
-		if big {
-			dcl = c03Tag
-		}
-		res.dirs = append(res.dirs, c03Direct{anyAccepted == "", dcl,
+		res.dirs = append(res.dirs, c03Direct{anyAccepted == "", "bottom-but-accepts",
 			fmt.Sprintf("%s is bottom but %s & %s is accepted", src, src, anyAccepted), src})
 	}
 	return res
@@ -599,11 +561,7 @@ func c03PermCase(h *c03Impl, cs []c03Con, a c03Atom) c03Result {
 	var res c03Result
 	all := append(append([]c03Con{}, cs...), conAtom(a))
 	base := ""
-	big := c03BigFr(cs)
 	tag := ""
-	if big {
-		tag = c03Tag
-	}
 	for pi, p := range c03Permutations(len(all)) {
 		pc := make([]c03Con, len(all))
 		for i, j := range p {
@@ -619,11 +577,7 @@ func c03PermCase(h *c03Impl, cs []c03Con, a c03Atom) c03Result {
 			sp = "other"
 		}
 		res.ops = append(res.ops, c03Out{"O", tag, "sat " + c03Proto(pc) + " " + a.proto, sp})
-		dcl := "order-dependent-accept"
-		if big {
-			dcl = c03Tag
-		}
-		res.dirs = append(res.dirs, c03Direct{got == base, dcl,
+		res.dirs = append(res.dirs, c03Direct{got == base, "order-dependent-accept",
 			fmt.Sprintf("%s gives %s but %s gives %s", c03Src(all), base, c03Src(pc), got), c03Src(pc)})
 	}
 	res.canon = "perm " + c03Proto(all)
@@ -978,7 +932,8 @@ func runC03(c *Cfg) {
 	dense := c03Dense(false)
 	small := c03Dense(true)
 
-	// known witnesses of the unchanged tree's defect (replayed every run)
+	// regression: the witness of the defect repaired by 2ca10eb (Ceil/Floor rounded at precision
+	// 34) and its negative twin are replayed every run; a relapse is an ordinary violation
 	{
 		b37, _ := new(big.Int).SetString("1234567890123456789012345678901234567", 10)
 		cf := new(big.Int).Mul(b37, bi(10))
@@ -986,6 +941,12 @@ func runC03(c *Cfg) {
 		hi := c03Int(new(big.Int).Add(b37, bi(2)))
 		jobs = append(jobs, job{cs: []c03Con{conType("int"), conBound("ge", lo), conBound("le", hi)},
 			atoms: []c03Atom{c03Int(new(big.Int).Add(b37, bi(1))), c03Int(new(big.Int).Add(b37, bi(2))), c03Int(b37)}, resid: true})
+		n37 := new(big.Int).Neg(b37)
+		ncf := new(big.Int).Mul(n37, bi(10))
+		nhi := c03Dec(ncf.Sub(ncf, bi(5)), -1) // -…567.5
+		nlo := c03Int(new(big.Int).Sub(n37, bi(1)))
+		jobs = append(jobs, job{cs: []c03Con{conType("int"), conBound("ge", nlo), conBound("le", nhi)},
+			atoms: []c03Atom{c03Int(new(big.Int).Sub(n37, bi(1))), c03Int(n37)}, resid: true})
 	}
 
 	// exhaustive n ≤ 2 over the dense alphabet (ordered tuples = every permutation)
